@@ -88,6 +88,13 @@ impl Trans {
 }
 
 
+/// ft M = [0 | S] and M bs = [0 ; S], with the shapes
+pub open spec fn elim_maps(mm: int, s: int, r: int, ft: int, bs: int) -> bool {
+    let (m, n) = (nr(mm), nc(mm));
+    &&& 0 <= r <= m && r <= n && nr(s) == m - r && nc(s) == n - r
+    &&& nr(ft) == m - r && nc(ft) == m && nr(bs) == n && nc(bs) == n - r
+    &&& mmul(ft, mm) == mconcat(mzero(m - r, r), s) && mmul(mm, bs) == mstack(mzero(r, n - r), s)
+}
 /// the algebra behind Schur::from_partial_triangular
 pub open spec fn schur_setup(t: TriangularType, mm: int, a: int, b: int, c: int, d: int, x: int, s: int, r: int, m: int, n: int) -> bool {
     &&& mm == mstack(mconcat(a, b), mconcat(c, d)) && 0 <= r <= m && r <= n
@@ -172,6 +179,9 @@ impl Schur {
                     &&& mmul(abcd.m@, bs) == mstack(mzero(r as int, nc(abcd.m@) - r), res.s.m@)      // M B_src = [0 ; S]: the pivot rows are eliminated
                     &&& mmul(fs, bs) == mid(nc(abcd.m@) - r) && mmul(ft, bt) == mid(nr(abcd.m@) - r)   // F B = I on both sides
                 }),
+            // whether or not they are returned, the eliminating maps exist (this is what a caller needs to see that S inherits d d = 0)
+            exists|ft: int, bs: int| #[trigger] elim_maps(abcd.m@, res.s.m@, r as int, ft, bs)
+                && (with_trans ==> (ft == res.t_tgt.unwrap().f@ && bs == res.t_src.unwrap().b@)),
     //@body impl/Schur/from_partial_triangular for_iter=1 arr_own=1 ring=1 machine=n,m,r,k,i q=ainvb,solve_triangular_left qname=q subst=SpMat:SpMat,R:ER
     //@+ after-let-raw ainvb
     //@| let ghost (ga, gb, gc, gd, gx) = (a.m@, b.m@, c.m@, d.m@, ainvb.m@);
@@ -184,6 +194,9 @@ impl Schur {
     //@| bx_add_dims(gx, gx); bx_dims(0, 0, 0, 0, n - r, 0, 0); bx_dims(0, 0, 0, 0, m - r, 0, 0);
     //@+ after-let f#1
     //@| lemma_schur_tgt(t, abcd.m@, ga, gb, gc, gd, gx, gs, r as int, m as int, n as int, mneg(f.m@));
+    //@| // the solver's answer is c a^-1:  Y = Y a a^-1 = c a^-1
+    //@| bx_tri_inv(t, ga); bx_assoc(mneg(f.m@), ga, minv(ga)); bx_id(mneg(f.m@));
+    //@| assert(mneg(f.m@) == mmul(gc, minv(ga)));
     //@+ post
     //@| if with_trans {
     //@|     let (fs, bs, ft, bt) = (__ret.t_src.unwrap().f@, __ret.t_src.unwrap().b@, __ret.t_tgt.unwrap().f@, __ret.t_tgt.unwrap().b@);
@@ -193,6 +206,15 @@ impl Schur {
     //@|     assert(mmul(ft, mstack(mzero(r as int, n - r), gs)) == gs);
     //@| }
     //@| assert(abcd.m@ == mstack(mconcat(ga, gb), mconcat(gc, gd)) && nr(ga) == r && nc(ga) == r && __ret.s.m@ == msub(gd, mmul(gc, mmul(minv(ga), gb))));
+    //@| // the eliminating maps, with y = c a^-1
+    //@| let y = mmul(gc, minv(ga));
+    //@| bx_tri_inv(t, ga); bx_assoc(gc, minv(ga), ga); bx_id(gc); bx_dims(gc, minv(ga), 0, 0, 0, 0, 0);
+    //@| lemma_schur_tgt(t, abcd.m@, ga, gb, gc, gd, gx, gs, r as int, m as int, n as int, y);
+    //@| let (ft0, bs0) = (mconcat(mneg(y), mid(m - r)), mstack(mneg(gx), mid(n - r)));
+    //@| bx_dims(abcd.m@, 0, 0, 0, 0, 0, 0);
+    //@| assert(nr(abcd.m@) == m && nc(abcd.m@) == n);
+    //@| if with_trans { assert(__ret.t_tgt.unwrap().f@ == ft0); }
+    //@| assert(elim_maps(abcd.m@, __ret.s.m@, r as int, ft0, bs0));
     //@+ closure 0 typed
     //@| n: usize
     //@+ closure 0
